@@ -60,7 +60,10 @@ def case_p(case):
     if kind == "unit":
         src = "#[typeshare]\n%s\npub enum E { First, %sQvar, Last }\n" % (ra, ren)
     else:
-        src = '#[typeshare]\n#[serde(tag = "Qtag", content = "Qcon")]\n%s\npub enum E { First(u32), %s, Last }\n' % (ra, body[kinds] % ren)
+        # (round n) serde does not care in which order / in how many attributes `tag` and `content` are written: the cases with a
+        # renamed variant write `content` first (newtype: same attribute; others: two attributes), the others `tag` first
+        tc = '#[serde(tag = "Qtag", content = "Qcon")]' if not renamed else ('#[serde(content = "Qcon", tag = "Qtag")]' if kinds == "newtype" else '#[serde(content = "Qcon")]\n#[serde(tag = "Qtag")]')
+        src = '#[typeshare]\n%s\n%s\npub enum E { First(u32), %s, Last }\n' % (tc, ra, body[kinds] % ren)
     res = {"paths": 0, "violations": [], "src": src}
     I = None
 
